@@ -366,6 +366,88 @@ def r_setappend(body, recv):
         body = body[:mo.start()] + new + body[close + 1:]
 
 
+
+def r_matchcount(body):
+    """match &E { Some(_) => 1, None => 0 }  ->  opt64(&E)   (the library's own helper `opt64`, proved in the same unit, has exactly this
+    definition; as a call its result is a single term for the solver instead of 30+ nested conditionals)  (R-matchcount)"""
+    rx = re.compile(r"match\s*&\s*([\w\.]+)\s*\{\s*Some\(_\)\s*=>\s*1\s*,\s*None\s*=>\s*0\s*,?\s*\}")
+    n = len(rx.findall(body))
+    if not n:
+        return body, []
+    return rx.sub(lambda mo: "opt64(&%s)" % mo.group(1), body), [("R-matchcount", "match &E { Some(_) => 1, None => 0 }", "opt64(&E)  x%d" % n)]
+
+
+
+def split_top_statements(body):
+    """body = '{ ... }' -> list of top-level statement texts (each `;`-terminated statement or block statement), plus the tail expression"""
+    inner = body.strip()[1:-1]
+    m = code_mask(inner)
+    out = []
+    d = 0
+    start = 0
+    i = 0
+    n = len(inner)
+    while i < n:
+        if m[i]:
+            ch = inner[i]
+            if ch in "([{":
+                d += 1
+            elif ch in ")]}":
+                d -= 1
+                if d == 0 and ch == "}":
+                    # end of a block: a block *statement* if what follows is not `;`, `.`, `?`, `else`, an operator
+                    j = i + 1
+                    while j < n and inner[j] in " \t\n":
+                        j += 1
+                    rest = inner[j:j + 5]
+                    head = inner[start:i + 1].lstrip()
+                    if re.match(r"(if|for|while|loop|match|unsafe)\b", head) and not re.match(r"(else\b|\.|\?|;)", rest):
+                        out.append(inner[start:i + 1].strip())
+                        start = i + 1
+            elif ch == ";" and d == 0:
+                out.append(inner[start:i + 1].strip())
+                start = i + 1
+        i += 1
+    tail = inner[start:].strip()
+    return [x for x in out if x], tail
+
+
+def r_chunk(sig, body, chunks, where):
+    """R-chunk: consecutive top-level block statements (the `if let Some(field) = &self.x { .. }` entries of an encoder), which share no
+    locals, are moved in source order into helper methods `<fn>_chunk_<g>(&self, serializer)`; the original body calls them in sequence.
+    `chunks` (from unit.toml) gives, per helper, how many block statements it takes and its contract.  Sequential composition is
+    re-verified by Verus against the helpers' contracts; nothing is trusted."""
+    stmts, tail = split_top_statements(body)
+    is_block = [bool(re.match(r"if\b", x)) for x in stmts]
+    first = next((i for i, b in enumerate(is_block) if b), None)
+    if first is None:
+        raise Unsupported("R-chunk: no block statements")
+    blocks = []
+    i = first
+    while i < len(stmts) and is_block[i]:
+        blocks.append(stmts[i])
+        i += 1
+    rest = stmts[i:]
+    if sum(c["take"] for c in chunks) != len(blocks):
+        raise AnchorLost("%s: R-chunk expects %d entry blocks, the body has %d" % (where, sum(c["take"] for c in chunks), len(blocks)))
+    fname = re.search(r"fn\s+(\w+)", sig).group(1)
+    helpers = []
+    calls = []
+    k = 0
+    for g, c in enumerate(chunks):
+        part = blocks[k:k + c["take"]]
+        k += c["take"]
+        hname = "%s_chunk_%d" % (fname, g)
+        ens = "".join("        %s,\n" % e.strip().rstrip(",") for e in c.get("ensures", []))
+        head = ("proof { %s }\n" % c["head"].strip()) if c.get("head") else ""
+        helpers.append("pub fn %s(&self, serializer: &mut Serializer) -> (r: Result<(), CborError>)\n    ensures\n%s{\n%s%s\nOk(())\n}\n" % (
+            hname, ens, head, "\n".join(part)))
+        calls.append("self.%s(serializer)?;" % hname)
+    new_body = "{\n" + "\n".join(stmts[:first]) + "\n" + "\n".join(calls) + "\n" + "\n".join(rest) + "\n" + tail + "\n}"
+    log = [("R-chunk", "%d entry blocks" % len(blocks), "%d helper methods of sizes %s" % (len(chunks), [c["take"] for c in chunks]))]
+    return new_body, helpers, log
+
+
 def r_tryfold(body):
     """RECV.try_fold(INIT, |ACC, PAT| BODY)  ->  { let mut ACC = INIT; for PAT in RECV { ACC = (BODY)?; } ACC_OK }
     where the whole expression is in tail / `?` position; emitted as a block evaluating to Result: Ok(ACC).
@@ -727,8 +809,16 @@ def emit_fn(f, udir, unit_props, recs, log_global):
         if "extend" in rewrites:
             body, l = r_extend(body)
             log += l
+        if f.get("chunk"):
+            body, helpers_, l = r_chunk(sig, body, f["chunk"], where)
+            log += l
+            rec.helper_items = helpers_
+            rec.helper_impl = f.get("chunk_impl", "")
         if "optmap" in rewrites or ("resmap" not in rewrites and "no-optmap" not in rewrites):
             body, l = r_optmap(body)
+            log += l
+        if "matchcount" in rewrites:
+            body, l = r_matchcount(body)
             log += l
         if "foreach" in rewrites:
             body, l = r_foreach(body)
@@ -903,6 +993,15 @@ def assemble(unit_name, canary=False, demote=()):
         add("// ---- %s  [%s]  %s:%d-%d sha=%s\n" % (rec.id, rec.mode, rec.source, rec.line, rec.end_line, rec.sha))
         rec.emit_start = pos[0]
         add(text)
+        if getattr(rec, "helper_items", None):
+            # helper methods of R-chunk live in an inherent impl next to the (trait) impl; they are part of this obligation's span
+            if cur_impl:
+                add("}\n")
+            add((rec.helper_impl or cur_impl) + " {\n")
+            for h in rec.helper_items:
+                add(h)
+            add("}\n")
+            cur_impl = None
         rec.emit_end = pos[0]
     if cur_impl:
         add("}\n")
